@@ -36,7 +36,9 @@ TRUSTED = [
     "evaluated again on that copy; a difference poisons the observation. Still assumed: that evalModify evaluates that very "
     "pattern over that very dataset (for the fragment BGP/Join/GRAPH this is modelled and proved instead: ModifyW, "
     "DeleteWhereW, where nothing of the engine is trusted)",
-    "coq/Sparql (property C04): its model of evaluate.py and its theorem C04_pushdown are reused, not re-proved",
+    "coq/Sparql (property C04): its model of evaluate.py and its theorems C04_pushdown, bu_typed are reused, not re-proved",
+    "the request-level tie theorem covers a model-computed WHERE at every position of a request for label-free templates; "
+    "with blank-node labels under a computed WHERE the tie is the single-step theorem plus this conformance run",
     "rdflib.plugins.stores.memory.Memory add/remove/remove_graph/contexts (properties C01/C02)",
 ]
 ASSUMPTIONS = [
